@@ -148,7 +148,7 @@ class C01(Prop):
                    "blank / whitespace-only lines are unconstrained", "identical line texts written by several "
                    "authors may be assigned to any of those authors (the diff's freedom)",
                    "checkpoint clock is strictly increasing (clock faults are a separate sub-mode)"]
-    expected_probes = ["ai_lines_observed", "multi_session", "hazard_regime"]
+    expected_probes = ["ai_lines_observed", "multi_session", "hazard_regime", "dirty_buffer"]
 
     def header(self, rng, tier, index):
         hz = draw_hazards(rng, tier)
@@ -160,6 +160,8 @@ class C01(Prop):
         # clock-fault sub-mode (ties and backward steps of the checkpoint clock): drawn only while the
         # finding clock_order is not listed, never mixed into the default mode
         cfg["clock"] = "faulty" if ("clock_order" not in cfg["gates"] and rng.random() < 0.15) else "monotone"
+        # some agents report edits from unsaved editor buffers (dirty_files); the editor saves afterwards
+        cfg["dirty_buffers"] = rng.random() < 0.3
         idg = gen.IdGen()
         files = gen.initial_files(rng, idg, cfg["n_files"], 12, hz)
         return {"world": {"mode": "wrapper"}, "sessions": ["s%d" % (k + 1) for k in range(n_sessions)],
@@ -211,6 +213,9 @@ class C01(Prop):
                     ex.fault("clock.tie" if op["dt"] == 0 else "clock.jump_back")
                 if who == HUMAN and cfg.get("human_pre_ckpt") and rng.random() < 0.5:
                     op["pre_ckpt"] = True
+                if who != HUMAN and cfg.get("dirty_buffers") and rng.random() < 0.4:
+                    op["dirty"] = True
+                    ex.probe("dirty_buffer")
                 return op
         if st["phase"] == "add":
             st["phase"] = "commit"
